@@ -130,6 +130,33 @@ func genUpdate(w *World, info FnInfo, cur absList, wc func() *bool) *genUpd {
 		}
 		return sel
 	}
+	// a delete selector may name only some parts of a composite identifier: it then matches every
+	// item that agrees in these parts (seed C02-h: only the first match was removed). Not used for
+	// partial filters, where "the" selected item must be unambiguous.
+	delSelector := func() any {
+		sel := selector()
+		if sel == nil || len(shapeOf(info.ItemType).Keys) < 2 || !w.T.Bool(1, 2, "selector-names-part-of-the-identifier") {
+			return sel
+		}
+		sv := reflect.ValueOf(sel).Elem()
+		var set []int
+		for i := 0; i < sv.NumField(); i++ {
+			if f := sv.Field(i); f.Kind() == reflect.Ptr && !f.IsNil() {
+				set = append(set, i)
+			}
+		}
+		if len(set) < 2 {
+			return sel
+		}
+		keep := set[w.T.Choose(len(set), "selector-part-kept")]
+		for _, i := range set {
+			if i != keep {
+				sv.Field(i).Set(reflect.Zero(sv.Field(i).Type()))
+			}
+		}
+		w.Probe("c02-delete-selector-names-part-of-identifier")
+		return sel
+	}
 	// what the filters say is taken from the generated selector and elements objects themselves,
 	// never read back through the implementation's own filter reader
 	var parSel, delSel, delEl any
@@ -151,7 +178,7 @@ func genUpdate(w *World, info FnInfo, cur absList, wc func() *bool) *genUpd {
 		// a delete filter and a partial filter that each name an item by selector
 		u.shape = "delete-selector+partial-selector"
 		u.data = GenList(info, []reflect.Value{w.GenItem(info.ItemType, nil, 1, 2, nil)})
-		u.fd = mkDel(selector(), nil)
+		u.fd = mkDel(delSelector(), nil)
 		u.fp = mkPar(selector(), nil)
 	case 11:
 		el := nonKeyElement(w, info)
@@ -194,7 +221,7 @@ func genUpdate(w *World, info FnInfo, cur absList, wc func() *bool) *genUpd {
 		}
 		u.shape = "delete-selector"
 		u.data = emptyData
-		u.fd = mkDel(selector(), nil)
+		u.fd = mkDel(delSelector(), nil)
 	case 6:
 		el := nonKeyElement(w, info)
 		if el == nil {
@@ -210,14 +237,14 @@ func genUpdate(w *World, info FnInfo, cur absList, wc func() *bool) *genUpd {
 		}
 		u.shape = "delete-selector-elements"
 		u.data = emptyData
-		u.fd = mkDel(selector(), el)
+		u.fd = mkDel(delSelector(), el)
 	default:
 		if !selOK {
 			return nil
 		}
 		u.shape = "delete-selector+partial-with-identifiers"
 		u.data = GenList(info, genItems(w, info, 1+w.T.Choose(2, "n"), 1, 2, wc))
-		u.fd = mkDel(selector(), nil)
+		u.fd = mkDel(delSelector(), nil)
 		u.fp = mkPar(nil, nil)
 	}
 	if u.fp != nil && u.fd != nil {
